@@ -243,6 +243,9 @@ func genG02(repo string, w *Out) error {
 	if !strings.Contains(calls, "w.w.Write(p)") || !strings.Contains(calls, "w.f.Flush()") {
 		return fmt.Errorf("patternFlushWriter.Write: expected w.w.Write(p) and w.f.Flush(), calls=%s", calls)
 	}
+	// the order of the two: the data goes to the buffer before the buffer is flushed
+	w.DefBool("flush_after_write", strings.Index(calls, "w.w.Write(p)") < strings.Index(calls, "w.f.Flush()") &&
+		len(wr.Body.List) > 0 && f.Src(wr.Body.List[0]) == "n, err = w.w.Write(p)")
 
 	// isHeaderOnlySpec: a disjunction of method / status-class / status tests
 	ho, err := f.Func("isHeaderOnlySpec")
